@@ -164,6 +164,9 @@ def c17(res, st, std_coq):
     q = res.tier == "quick"
     cases = gens.parser_cases(rnd, 1000 if q else 20000, 200 if q else 4000, 150 if q else 3000)
     cases += [("ParseStatement", s) for s in gens.regression("C17")]
+    # error-recovered trees from systematic error injection (Bad nodes nested in every production; hints in every place)
+    inj = gens.injection_cases(rnd, q)
+    cases += inj if not q else [c for i, c in enumerate(inj) if i % 3 == 0 or b"@{" in c[1]]
     prunes = [(0, 0), (2, 1), (3, 0), (5, 2)] if q else [(0, 0), (2, 0), (2, 1), (3, 0), (3, 1), (3, 2), (5, 2), (7, 3)]
     what = [("walk %d/%d" % po, ["tree-walk", str(po[0]), str(po[1])], ["tree-walk", str(po[0]), str(po[1])]) for po in prunes]
     what.append(("walkmany", ["tree-walkmany"], ["tree-walkmany"]))
